@@ -450,9 +450,57 @@ func c10Property(t *rapid.T, st *Stats) {
 		ms := olareg.New(over)
 		after := s.sweepOf(ms)
 		_ = ms.Close()
-		e.srv = olareg.New(e.conf)
 		if before != after {
+			e.srv = olareg.New(e.conf)
 			s.fail("mem-over-dir-differs", "a memory store layered over the closed directory answers differently:\n--- dir\n%s--- mem over dir\n%s", before, after)
+		}
+		// the same requests - deletes, uploads, re-pushes - against the directory store and against a memory store over a
+		// copy of the directory get the same answers and leave the same readable state
+		cp := mkTemp("c10over")
+		defer os.RemoveAll(cp)
+		copyTree(e.root, filepath.Join(cp, "root"))
+		over.Storage.RootDir = filepath.Join(cp, "root")
+		ms = olareg.New(over)
+		defer func() { _ = ms.Close() }()
+		e.srv = olareg.New(e.conf)
+		digs := append(sortedKeys(s.universe), dig("sha256", []byte("a digest nobody ever pushed")))
+		n := rapid.IntRange(0, 6).Draw(t, "epilogueOps")
+		for i := 0; i < n; i++ {
+			rn := rapid.SampledFrom(c10Repos).Draw(t, "repo")
+			d := rapid.SampledFrom(digs).Draw(t, "digest")
+			var method, u string
+			var body []byte
+			switch rapid.SampledFrom([]string{"deleteBlob", "deleteBlob", "headBlob", "deleteManifest", "deleteTag", "pushBlob", "getManifest"}).Draw(t, "epilogueOp") {
+			case "deleteBlob":
+				method, u = "DELETE", "/v2/"+rn+"/blobs/"+d
+				if _, was := s.repo(rn).everMans[d]; was {
+					// the blob of a manifest: what becomes of an index's children when the index loses its blob depends
+					// on when the store next reads index.json (finding 12); C06 deletes such blobs
+					method = "HEAD"
+				}
+			case "headBlob":
+				method, u = "HEAD", "/v2/"+rn+"/blobs/"+d
+			case "deleteManifest":
+				method, u = "DELETE", "/v2/"+rn+"/manifests/"+d
+			case "deleteTag":
+				method, u = "DELETE", "/v2/"+rn+"/manifests/"+rapid.SampledFrom(c10Tags).Draw(t, "tag")
+			case "pushBlob":
+				body = rapid.SampledFrom(blobPool).Draw(t, "blob")
+				method, u = "POST", "/v2/"+rn+"/blobs/uploads/?digest="+dig("sha256", body)
+			case "getManifest":
+				method, u = "GET", "/v2/"+rn+"/manifests/"+d
+			}
+			rd, ro := doReq(e.srv, method, u, body, hdr("Accept", acceptAll)), doReq(ms, method, u, body, hdr("Accept", acceptAll))
+			e.logf("epilogue: %s %s -> dir %d, mem over a copy of the directory %d", method, short(u), rd.code, ro.code)
+			e.class("mem-over-dir-epilogue")
+			if rd.code != ro.code {
+				s.fail("mem-over-dir-differs", "%s %s answers %d from the directory store and %d from a memory store layered over a copy of the same directory", method, u, rd.code, ro.code)
+			}
+		}
+		if n > 0 {
+			if b, a := s.sweepOf(e.srv), s.sweepOf(ms); b != a {
+				s.fail("mem-over-dir-differs", "after the same requests the directory store and a memory store layered over a copy of the directory answer differently:\n--- dir\n%s--- mem over dir\n%s", b, a)
+			}
 		}
 	})
 }
